@@ -12,9 +12,11 @@
    where fp_read is the impl model of core.read_col / read_data_page / read_data_page_v2.
    Proved part: the impl model of the v1 page reader (Impl/RPages.v: read_data_page + the page part of
    read_col) reads every v1 data page of every layout (incl. DELTA_BINARY_PACKED) back to the page's
-   denotation (C03_fp_read_page_v1_spec_partial).  Missing: the v2 page reader (read_data_page_v2 with its
-   in-place fast paths), the page loop of read_col over a chunk, and the native decoders themselves
-   (represented by the specification decoders; C11 proves that for widths <= 24).  For the
+   denotation (C03_fp_read_page_v1_spec_partial), and so does the impl model of read_data_page_v2 with its
+   in-place fast paths for every v2 page (C03_fp_read_page_v2_spec_partial).  Missing: the page loop of
+   read_col over a chunk (dictionary replacement, `num` bookkeeping), the categorical / row-filter variants,
+   and the native decoders themselves (represented by the specification decoders; C11 proves the native
+   hybrid reader equal to the specification for widths <= 24).  For the
    missing parts the reader is tied to the specification by the per-run oracle only
    (harness/props/C03.py: fastparquet's result = table_of on every generated file).                *)
 From Coq Require Import String.
@@ -26,6 +28,9 @@ From Pq Require Import Base.Bytes Base.ListX Codec.Hybrid Thrift.Compact Format.
 Import ListNotations.
 Open Scope list_scope.
 Open Scope N_scope.
+
+Definition id_c (_ : Z) (b : bytes) : bytes := b.
+Definition id_d (_ : Z) (_ : N) (b : bytes) : option bytes := Some b.
 
 Theorem C03_spec_page_roundtrip :
   forall (compress : Z -> bytes -> bytes) (decompress : Z -> N -> bytes -> option bytes),
@@ -73,6 +78,43 @@ Theorem C03_fp_read_page_v1_spec_partial : forall cd dict p cs,
 Proof. exact rd_col_page_v1_spec. Qed.
 Print Assumptions C03_fp_read_page_v1_spec_partial.
 
+(* impl model of core.read_data_page_v2 (flat column, no row filter, not read as categorical; Impl/RPages.v
+   rd_page_v2: levels decoded only when the header announces NULLs, is_compressed None = True, the three
+   PLAIN paths incl. the in-place ones (flag `inplace`), dictionary width 0, RLE booleans, DELTA with its
+   no-NULL assertion) on the page the specification encoder writes (enc_v2_shape: these ARE the header
+   fields, sizes and payload of enc_data_page) returns exactly the cells the page denotes - for either
+   value of `inplace` (restricted to fixed-width numeric columns, where the code can take it). *)
+Theorem C03_fp_read_page_v2_spec_partial :
+  forall (compress : Z -> bytes -> bytes) (decompress : Z -> N -> bytes -> option bytes),
+  (forall codec b, decompress codec (lenN b) (compress codec b) = Some b) ->
+  forall inplace cd dict codec p cs,
+  lp_v2 p = true -> page_wf cd p -> store_ok_for_reader cd (lp_store p) -> page_cells cd dict p = Some cs ->
+  (inplace = true -> match lp_store p with SPlain _ => num_width (cd_type cd) <> None | _ => True end) ->
+  (match lp_store p with SDelta _ _ _ => v2_nn cd p = 0 | _ => True end) ->
+  rd_page_v2 decompress inplace cd dict codec (v2_header cd p)
+             (lenN (v2_lb cd p) + lenN (store_bytes cd (lp_store p)))
+             (lenN (v2_lb cd p) + lenN (v2_body compress cd codec p))
+             (v2_lb cd p ++ v2_body compress cd codec p)
+  = ROk cs.
+Proof. exact rd_page_v2_spec. Qed.
+Print Assumptions C03_fp_read_page_v2_spec_partial.
+
+Theorem C03_v2_page_shape : forall (compress : Z -> bytes -> bytes) cd codec p, lp_v2 p = true ->
+  enc_data_page compress cd codec p
+  = ({| ph_usize := Z.of_N (lenN (v2_lb cd p)) + Z.of_N (lenN (store_bytes cd (lp_store p)));
+        ph_csize := Z.of_N (lenN (v2_lb cd p)) + Z.of_N (lenN (v2_body compress cd codec p)); ph_crc := None;
+        ph_body := PBData2 (v2_header cd p) |}%Z, v2_lb cd p ++ v2_body compress cd codec p).
+Proof. exact enc_v2_shape. Qed.
+Print Assumptions C03_v2_page_shape.
+
+(* a v2 DELTA page that does hold NULLs is refused by the model exactly as by the code (AssertionError) *)
+Example C03_v2_delta_with_nulls_refused :
+  rd_page_v2 id_d false {| cd_type := INT32; cd_tlen := 0; cd_maxdef := 1 |} None 0%Z
+             {| d2_nvals := 2; d2_nnulls := 1; d2_nrows := 2; d2_enc := E_DELTA; d2_dlen := 2; d2_rlen := 0; d2_iscomp := None |}
+             10 10 [3; 1; 128; 1; 4; 1; 10; 0; 0; 0]
+  = RBad "AssertionError: null delta-int not implemented".
+Proof. vm_compute. reflexivity. Qed.
+
 (* why the `selfmade` guard of the raw-codes shortcut matters (appendix B mutant "drop `and selfmade`"):
    with the shortcut taken on a foreign page of index width 8 the model does not return the denotation *)
 Definition ex_sm_cd : coldesc := {| cd_type := INT32; cd_tlen := 0; cd_maxdef := 0 |}.
@@ -112,8 +154,6 @@ Definition ex3 : lfile :=
                      lc_items := [ LData {| lp_v2 := true; lp_nvals := 3; lp_def := [RLE 1 0; RLE 2 1];
                                             lp_store := SPlain [VNum 1; VNum 2]; lp_iscomp := Some true; lp_trail := [] |} ] |} ] ];
      l_created_by := Some [120] |}.
-Definition id_c (_ : Z) (b : bytes) : bytes := b.
-Definition id_d (_ : Z) (_ : N) (b : bytes) : option bytes := Some b.
 
 Example C03_nonvacuous :
   option_map snd (table_of ex3)
